@@ -49,6 +49,10 @@ func (x *xtr) assigned(stmts []ast.Stmt, declared, out map[string]bool) {
 				if inPlaceCalls[selName(c.Fun)] && len(c.Args) > 0 {
 					mark(lvalueBase(c.Args[0]))
 				}
+				// a mutating method of an opaque value held in a struct field changes the struct
+				if se, ok := c.Fun.(*ast.SelectorExpr); ok && x.mutMethodName(se.Sel.Name) {
+					mark(lvalueBase(se.X))
+				}
 			}
 			return true
 		})
@@ -60,6 +64,9 @@ func (x *xtr) assigned(stmts []ast.Stmt, declared, out map[string]bool) {
 					continue
 				}
 				mark(lvalueBase(l))
+				if id, ok := l.(*ast.Ident); ok {
+					mark(x.capVars[id.Name]) // an append to the slice also sets its capacity variable
+				}
 			}
 		case *ast.IncDecStmt:
 			mark(lvalueBase(t.X))
@@ -185,8 +192,22 @@ func (x *xtr) references(nodes ...ast.Node) map[string]bool {
 	walk = func(n ast.Node) bool {
 		switch t := n.(type) {
 		case *ast.SelectorExpr:
+			for _, m := range x.methods { // the abstract method parameters a call may stand for
+				if m.ft != nil && strings.HasSuffix(m.lean, "_"+t.Sel.Name) {
+					r[m.lean] = true
+				}
+			}
 			ast.Inspect(t.X, walk)
 			return false
+		case *ast.CallExpr:
+			if isIdent(t.Fun, "append") && x.env["growCap"] != nil {
+				r["growCap"] = true
+			}
+			if isIdent(t.Fun, "cap") && len(t.Args) == 1 {
+				if id, ok := t.Args[0].(*ast.Ident); ok && x.capVars[id.Name] != "" {
+					r[x.capVars[id.Name]] = true
+				}
+			}
 		case *ast.KeyValueExpr:
 			ast.Inspect(t.Value, walk)
 			return false
@@ -304,6 +325,8 @@ func (x *xtr) block(stmts []ast.Stmt, k func() string) string {
 		return x.rangeStmt(t, rest)
 	case *ast.TypeSwitchStmt:
 		return x.typeSwitch(t, rest)
+	case *ast.SwitchStmt:
+		return x.ifStmt(x.switchToIf(t), rest)
 	}
 	x.bad(s, "statement %T", s)
 	return ""
@@ -383,6 +406,17 @@ func (x *xtr) ifStmt(t *ast.IfStmt, rest func() string) string {
 		}
 		x.bad(t, "if with an init statement (only `if err := bucket.Put(k, v); err != nil { … return … }`)")
 	}
+	if pre, ok := x.mutCond(t); ok {
+		// `if s.f.M(args) {` with a mutating method M of the opaque field f: the call first, then the test
+		c := *t
+		c.Cond = &ast.Ident{Name: "c_", NamePos: t.Cond.Pos()}
+		saved := x.env
+		x.env = copyEnv(saved)
+		x.env["c_"] = tBoolx
+		r := joinLines(pre, x.ifStmt(&c, func() string { delete(x.env, "c_"); return rest() }))
+		x.env = saved
+		return r
+	}
 	cond := x.boolExpr(t.Cond)
 	var elseList []ast.Stmt
 	if t.Else != nil {
@@ -428,6 +462,51 @@ func (x *xtr) ifStmt(t *ast.IfStmt, rest func() string) string {
 	return joinLines(fmt.Sprintf("let %s : %s :=\n  if %s then\n%s\n  else\n%s", tuple, x.tupleType(names), cond, indent(thenS, 2), indent(elseS, 2)), rest())
 }
 
+func (x *xtr) mutMethodName(name string) bool {
+	for _, m := range x.methods {
+		if m.mut && strings.HasSuffix(m.lean, "_"+name) {
+			return true
+		}
+	}
+	return false
+}
+
+// the condition `v.f.M(args)` where f is an opaque field of the struct variable v and M one of its
+// mutating methods (spec.Methods "T.M=mut func(..) bool"): the text that performs the call, binding c_
+func (x *xtr) mutCond(t *ast.IfStmt) (string, bool) {
+	c, ok := t.Cond.(*ast.CallExpr)
+	if !ok {
+		return "", false
+	}
+	se, ok := c.Fun.(*ast.SelectorExpr)
+	if !ok || !x.mutMethodName(se.Sel.Name) {
+		return "", false
+	}
+	fe, ok := se.X.(*ast.SelectorExpr)
+	if !ok {
+		x.bad(c, "mutating method call on something that is not a field of a struct variable")
+	}
+	id, ok := fe.X.(*ast.Ident)
+	if !ok || x.env[id.Name] == nil || x.env[id.Name].k != kStruct {
+		x.bad(c, "mutating method call on something that is not a field of a struct variable")
+	}
+	if x.ptrParams[id.Name] {
+		x.bad(c, "mutation through the pointer parameter %s (visible to the caller)", id.Name)
+	}
+	sty := x.env[id.Name]
+	fty := x.structs[sty.name].field(fe.Sel.Name)
+	if fty == nil || fty.k != kOpaque {
+		x.bad(c, "mutating method call on the field %s, which is not of an opaque type", fe.Sel.Name)
+	}
+	m, ok := x.methods[fty.name+"."+se.Sel.Name]
+	if !ok || !m.mut || len(m.ft.results) != 1 || m.ft.results[0].k != kBool {
+		x.bad(c, "%s.%s is not a mutating method with one bool result (spec.Methods)", fty.name, se.Sel.Name)
+	}
+	call := x.applyFn(c, m.lean+" "+paren(ident(id.Name))+"."+ident(fe.Sel.Name), m.ft)
+	return fmt.Sprintf("let (c_, s_) : Bool × %s := %s\nlet %s : %s := { %s with %s := s_ }", fty.lean(), call,
+		ident(id.Name), sty.lean(), ident(id.Name), ident(fe.Sel.Name)), true
+}
+
 // ---- assignments
 
 func (x *xtr) noteAlias(lhs string, rhs ast.Expr, ty *xty) {
@@ -437,6 +516,13 @@ func (x *xtr) noteAlias(lhs string, rhs ast.Expr, ty *xty) {
 	src := rhs
 	if se, ok := rhs.(*ast.SliceExpr); ok {
 		src = se.X
+	}
+	if se, ok := src.(*ast.SelectorExpr); ok {
+		// b := s.f / b := s.f[i:j]: b and the field share a backing array
+		if base := lvalueBase(se); base != "" && x.env[base] != nil {
+			x.shared[lhs] = true
+			x.shared[exprText(se)] = true
+		}
 	}
 	if id, ok := src.(*ast.Ident); ok && id.Name != lhs {
 		if _, isVar := x.env[id.Name]; isVar {
@@ -460,6 +546,15 @@ func (x *xtr) assign(t *ast.AssignStmt) string {
 		if t.Tok != token.DEFINE && t.Tok != token.ASSIGN {
 			x.bad(t, "parallel assignment operator")
 		}
+		allIdents := true
+		for _, l := range t.Lhs {
+			if _, ok := l.(*ast.Ident); !ok {
+				allIdents = false
+			}
+		}
+		if !allIdents {
+			return x.parallelStore(t)
+		}
 		var names, tys, vals []string
 		var decl []func()
 		for i, l := range t.Lhs {
@@ -480,6 +575,9 @@ func (x *xtr) assign(t *ast.AssignStmt) string {
 				var ok bool
 				if ty, ok = x.env[id.Name]; !ok {
 					x.bad(l, "assignment to unknown %s", id.Name)
+				}
+				if _, ok := x.capVars[id.Name]; ok {
+					x.bad(l, "assignment to %s, whose capacity is modelled, that is not an append", id.Name)
 				}
 			}
 			names = append(names, id.Name)
@@ -529,6 +627,19 @@ func (x *xtr) assign(t *ast.AssignStmt) string {
 		if ty.k == kFunc {
 			x.bad(t, "assignment to a function variable")
 		}
+		if cv, ok := x.capVars[l.Name]; ok {
+			// the capacity of this slice variable is modelled (spec.CapVars): only `v = append(v, ..)` may assign it
+			ap, isCall := rhs.(*ast.CallExpr)
+			if !isCall || t.Tok != token.ASSIGN || !isIdent(ap.Fun, "append") || len(ap.Args) < 1 || !isIdent(ap.Args[0], l.Name) {
+				x.bad(t, "assignment to %s, whose capacity is modelled, that is not `%s = append(%s, ..)`", l.Name, l.Name, l.Name)
+			}
+			if x.env["growCap"] == nil || x.env[cv] == nil || x.env[cv].k != kInt {
+				x.bad(t, "append to %s needs the parameter growCap (spec.Prims) and the int variable %s", l.Name, cv)
+			}
+			x.usesRtX = true
+			return fmt.Sprintf("let %s : %s := %s\nlet %s : Int := Go.capAppend growCap %s (Go.len %s)", ident(l.Name), ty.lean(), value(nil, ty),
+				ident(cv), ident(cv), ident(l.Name))
+		}
 		x.noteAlias(l.Name, rhs, ty)
 		return fmt.Sprintf("let %s : %s := %s", ident(l.Name), ty.lean(), value(nil, ty))
 	case *ast.SelectorExpr:
@@ -547,8 +658,27 @@ func (x *xtr) assign(t *ast.AssignStmt) string {
 		if fty == nil {
 			x.bad(t, "field %s of %s is not modelled (spec)", l.Sel.Name, sty.name)
 		}
+		if x.structs[sty.name].caps[l.Sel.Name] {
+			// the capacity of this field is modelled: only `s.f = append(s.f, ..)` may assign it; the
+			// capacity stays when the new length fits, else it is whatever the run time chooses (growCap)
+			ap, ok := rhs.(*ast.CallExpr)
+			if !ok || t.Tok != token.ASSIGN || !isIdent(ap.Fun, "append") || len(ap.Args) < 1 || exprText(ap.Args[0]) != exprText(l) {
+				x.bad(t, "assignment to %s.%s, whose capacity is modelled, that is not `%s = append(%s, ..)`", id.Name, l.Sel.Name, exprText(l), exprText(l))
+			}
+			if x.env["growCap"] == nil {
+				x.bad(t, "append to a field with modelled capacity needs the parameter growCap (spec.Prims)")
+			}
+			x.usesRtX = true
+			cp := ident(l.Sel.Name + "_cap")
+			return fmt.Sprintf("let %s : %s :=\n  let v_ : %s := %s\n  { %s with %s := v_, %s := Go.capAppend growCap %s.%s (Go.len v_) }", ident(id.Name), sty.lean(), fty.lean(), value(nil, fty),
+				ident(id.Name), ident(l.Sel.Name), cp, paren(ident(id.Name)), cp)
+		}
 		return fmt.Sprintf("let %s : %s := { %s with %s := %s }", ident(id.Name), sty.lean(), ident(id.Name), ident(l.Sel.Name), value(nil, fty))
 	case *ast.IndexExpr:
+		if fe, ok := l.X.(*ast.SelectorExpr); ok {
+			// s.f[i] = v
+			return x.storeFieldElem(t, fe, l.Index, func(ety *xty) string { return value(nil, ety) })
+		}
 		id, ok := l.X.(*ast.Ident)
 		if !ok {
 			x.bad(t, "assignment target")
@@ -571,6 +701,90 @@ func (x *xtr) assign(t *ast.AssignStmt) string {
 	}
 	x.bad(t, "assignment target %T", lhs)
 	return ""
+}
+
+// s.f[i] = v for a slice field f of the struct variable s
+func (x *xtr) storeFieldElem(n ast.Node, fe *ast.SelectorExpr, index ast.Expr, value func(ety *xty) string) string {
+	id, ok := fe.X.(*ast.Ident)
+	if !ok || x.env[id.Name] == nil || x.env[id.Name].k != kStruct {
+		x.bad(n, "element assignment target")
+	}
+	if x.ptrParams[id.Name] {
+		x.bad(n, "assignment through the pointer parameter %s (visible to the caller)", id.Name)
+	}
+	sty := x.env[id.Name]
+	fty := x.structs[sty.name].field(fe.Sel.Name)
+	if fty == nil || fty.k != kList {
+		x.bad(n, "element assignment to the field %s of %s, which is not a modelled slice", fe.Sel.Name, sty.name)
+	}
+	if x.shared[exprText(fe)] {
+		x.bad(n, "element assignment to %s, which may share its backing array with another variable", exprText(fe))
+	}
+	i := x.intExpr(index)
+	return fmt.Sprintf("let %s : %s := { %s with %s := Go.setI %s.%s %s %s }", ident(id.Name), sty.lean(), ident(id.Name), ident(fe.Sel.Name),
+		paren(ident(id.Name)), ident(fe.Sel.Name), paren(i), paren(value(fty.elem)))
+}
+
+// a[i], b[j] = e1, e2 (targets: variables, elements of slice variables, elements of slice fields):
+// all right-hand sides (and, in Go, the index operands) are evaluated first, then the stores run left to right
+func (x *xtr) parallelStore(t *ast.AssignStmt) string {
+	if t.Tok != token.ASSIGN {
+		x.bad(t, "parallel assignment operator")
+	}
+	bases := map[string]bool{}
+	for _, l := range t.Lhs {
+		bases[lvalueBase(l)] = true
+	}
+	var tmps, tys, vals []string
+	var etys []*xty
+	for i, l := range t.Lhs {
+		var ety *xty
+		switch lt := l.(type) {
+		case *ast.Ident:
+			if _, ok := x.capVars[lt.Name]; ok {
+				x.bad(l, "assignment to %s, whose capacity is modelled, that is not an append", lt.Name)
+			}
+			ety = x.env[lt.Name]
+		case *ast.IndexExpr:
+			for b := range bases {
+				if b != "" && x.mentions(lt.Index, b) {
+					x.bad(l, "an index operand of a parallel assignment mentions the assigned variable %s", b)
+				}
+			}
+			if b := x.expr(lt.X); b.ty.k == kList {
+				ety = b.ty.elem
+			}
+		}
+		if ety == nil {
+			x.bad(l, "parallel assignment target")
+		}
+		etys = append(etys, ety)
+		tmps = append(tmps, fmt.Sprintf("t%d_", i))
+		tys = append(tys, parenT(ety.lean()))
+		vals = append(vals, x.co(t.Rhs[i], x.expr(t.Rhs[i]), ety))
+	}
+	lines := []string{fmt.Sprintf("let (%s) : %s := (%s)", strings.Join(tmps, ", "), strings.Join(tys, " × "), strings.Join(vals, ", "))}
+	for i, l := range t.Lhs {
+		tmp := tmps[i]
+		switch lt := l.(type) {
+		case *ast.Ident:
+			lines = append(lines, fmt.Sprintf("let %s : %s := %s", ident(lt.Name), etys[i].lean(), tmp))
+		case *ast.IndexExpr:
+			if fe, ok := lt.X.(*ast.SelectorExpr); ok {
+				lines = append(lines, x.storeFieldElem(t, fe, lt.Index, func(*xty) string { return tmp }))
+				continue
+			}
+			id, ok := lt.X.(*ast.Ident)
+			if !ok || x.env[id.Name] == nil || x.env[id.Name].k != kList {
+				x.bad(l, "parallel assignment target")
+			}
+			if x.shared[id.Name] {
+				x.bad(t, "element assignment to %s, which may share its backing array with another variable", id.Name)
+			}
+			lines = append(lines, fmt.Sprintf("let %s : %s := Go.setI %s %s %s", ident(id.Name), x.env[id.Name].lean(), ident(id.Name), paren(x.intExpr(lt.Index)), tmp))
+		}
+	}
+	return strings.Join(lines, "\n")
 }
 
 // a, b := <one expression with two results>
@@ -622,6 +836,9 @@ func (x *xtr) assignTuple(t *ast.AssignStmt) string {
 			names = append(names, "_")
 			continue
 		}
+		if _, ok := x.capVars[id.Name]; ok {
+			x.bad(l, "assignment to %s, whose capacity is modelled, that is not an append", id.Name)
+		}
 		if t.Tok == token.DEFINE {
 			if _, exists := x.env[id.Name]; !exists {
 				x.declare(l, id.Name, rtys[i])
@@ -660,9 +877,106 @@ func (x *xtr) failingCall(t *ast.AssignStmt) (*ast.CallExpr, bool) {
 	return nil, false
 }
 
+// `switch { case c1: … case c2, c3: … default: … }` (no tag, no init) is the chain
+// `if c1 {…} else if c2 || c3 {…} else {…}`; `break` / `fallthrough` inside are rejected
+func (x *xtr) switchToIf(t *ast.SwitchStmt) *ast.IfStmt {
+	if t.Init != nil || t.Tag != nil {
+		x.bad(t, "switch with a tag or an init statement (only `switch { case cond: … }`)")
+	}
+	var deflt *ast.CaseClause
+	var cases []*ast.CaseClause
+	for _, cl := range t.Body.List {
+		cc := cl.(*ast.CaseClause)
+		ast.Inspect(cc, func(n ast.Node) bool {
+			if b, ok := n.(*ast.BranchStmt); ok && (b.Tok == token.BREAK || b.Tok == token.FALLTHROUGH || b.Tok == token.GOTO) {
+				x.bad(b, "%s inside a switch", b.Tok)
+			}
+			return true
+		})
+		if cc.List == nil {
+			if deflt != nil {
+				x.bad(cc, "two default clauses")
+			}
+			deflt = cc
+			continue
+		}
+		cases = append(cases, cc)
+	}
+	if len(cases) == 0 {
+		x.bad(t, "switch without a case")
+	}
+	var els ast.Stmt
+	if deflt != nil {
+		els = &ast.BlockStmt{Lbrace: deflt.Pos(), List: deflt.Body}
+	}
+	for i := len(cases) - 1; i >= 0; i-- {
+		cc := cases[i]
+		cond := cc.List[0]
+		for _, c := range cc.List[1:] {
+			cond = &ast.BinaryExpr{X: cond, Op: token.LOR, OpPos: c.Pos(), Y: c}
+		}
+		els = &ast.IfStmt{If: cc.Pos(), Cond: cond, Body: &ast.BlockStmt{Lbrace: cc.Pos(), List: cc.Body}, Else: els}
+	}
+	return els.(*ast.IfStmt)
+}
+
+// `v.., err = f(..)` where err is a named error result: every variable is assigned; a failing call
+// leaves the zero value beside its error (the convention `Except` already assumes of `(T, error)`)
+func (x *xtr) callAssign(t *ast.AssignStmt, c *ast.CallExpr) string {
+	fn := c.Fun.(*ast.Ident).Name
+	ft := x.env[fn]
+	n := len(ft.results)
+	if ft.oracle || n == 0 || ft.results[n-1].k != kErr {
+		x.bad(t, "assignment from the effectful callback %s (only `v, err := f(..)`)", fn)
+	}
+	if len(t.Lhs) != n {
+		x.bad(t, "assignment arity")
+	}
+	var names, tys, oks, zeros []string
+	for i, l := range t.Lhs {
+		id, ok := l.(*ast.Ident)
+		if !ok {
+			x.bad(l, "result assigned to a non-variable")
+		}
+		if i == n-1 {
+			if ty, ok := x.env[id.Name]; !ok || ty.k != kErrOpt {
+				x.bad(l, "the error of %s may be assigned (`=`) only to a named error result", fn)
+			}
+			names, tys = append(names, id.Name), append(tys, tErrOpt.lean())
+			break
+		}
+		if id.Name == "_" {
+			x.bad(l, "a result of %s is dropped", fn)
+		}
+		ty, ok := x.env[id.Name]
+		if !ok || !sameTy(ty, ft.results[i]) {
+			x.bad(l, "result %d assigned to %s of another type", i, id.Name)
+		}
+		names, tys = append(names, id.Name), append(tys, parenT(ty.lean()))
+		oks, zeros = append(oks, fmt.Sprintf("v%d_", i)), append(zeros, x.zero(l, ty))
+	}
+	okPat := "_"
+	if len(oks) == 1 {
+		okPat = oks[0]
+	} else if len(oks) > 1 {
+		okPat = "(" + strings.Join(oks, ", ") + ")"
+	}
+	tup := func(vals []string, e string) string {
+		if len(vals) == 0 {
+			return e
+		}
+		return "(" + strings.Join(append(append([]string{}, vals...), e), ", ") + ")"
+	}
+	return fmt.Sprintf("let %s : %s :=\n  match %s with\n  | .ok %s => %s\n  | .error e_ => %s", tupleNames(names), strings.Join(tys, " × "),
+		x.applyFn(c, ident(fn), ft), okPat, tup(oks, "none"), tup(zeros, "some e_"))
+}
+
 func (x *xtr) callIdiom(t *ast.AssignStmt, c *ast.CallExpr, after []ast.Stmt, k func() string) string {
 	fn := c.Fun.(*ast.Ident).Name
 	ft := x.env[fn]
+	if t.Tok == token.ASSIGN {
+		return joinLines(x.callAssign(t, c), x.block(after, k))
+	}
 	n := len(ft.results)
 	if n == 0 || ft.results[n-1].k != kErr {
 		x.bad(t, "effectful callback %s without an error result", fn)
@@ -773,6 +1087,14 @@ func isZeroLit(e ast.Expr) bool {
 
 func (x *xtr) retValue(s *ast.ReturnStmt) string {
 	rs := x.results
+	if x.namedRes != nil && len(s.Results) == 0 {
+		// bare return: the current values of the named results
+		v := tupleNames(x.namedRes)
+		for _, ex := range x.extras {
+			v = "(" + v + ", " + ident(ex) + ")"
+		}
+		return v
+	}
 	if len(s.Results) != len(rs) {
 		x.bad(s, "return with %d values, want %d (named results are not supported)", len(s.Results), len(rs))
 	}
@@ -809,7 +1131,11 @@ func (x *xtr) retValue(s *ast.ReturnStmt) string {
 	} else {
 		v = tuple(s.Results, rs)
 	}
-	for _, ex := range x.extras {
+	for i, ex := range x.extras {
+		if i == 0 && len(rs) == 0 {
+			v = ident(ex) // no results: the returned value is the state alone
+			continue
+		}
 		v = "(" + v + ", " + ident(ex) + ")"
 	}
 	return v
